@@ -270,6 +270,8 @@ pub(crate) struct WaitSignal(WaitGroup);
 impl Drop for WaitSignal {
     fn drop(&mut self) {
         self.0.done();
+        #[cfg(transparencies_stretto_verif)]
+        crate::verif::emit(|| crate::verif::Event::WaitDone);
     }
 }
 
@@ -829,7 +831,10 @@ where
             },
             Branch::Tick => self.handle_cleanup_event(Ok(Instant::now())),
             Branch::Stop => match self.stop_rx.try_recv() {
-                Ok(_) | Err(TryRecvError::Disconnected) => return Stepped::Exited,
+                Ok(_) | Err(TryRecvError::Disconnected) => {
+                    self.handle_stop_event();
+                    return Stepped::Exited;
+                }
                 Err(TryRecvError::Empty) => return Stepped::NotReady,
             },
         };
